@@ -8,7 +8,7 @@
    - options= and range= are respected by every present value: a scalar, every element of a slice, every value
      of a map, and by the declared default (the property text makes no exception for kinds or positions);
    - optional=dep / optional=!dep: the field's optional flag is the resolved one (Model.resolve_opts), and a
-     both-or-neither / either-or mismatch admits no value at all.
+     both-or-neither / either-or mismatch allows no value at all.
    `tol` names ONE clause of the text that the code is known not to enforce (KNOWN_FINDINGS classes); `agrees_t tol`
    tolerates exactly that clause.  The property is `agrees = agrees_t TNone`.
    (the struct case is also available as `field_agrees`, see agrees_struct). *)
